@@ -901,6 +901,27 @@ func (fx *fnExec) evalCall(x ECall, env *SpecEnv) SV {
 			key = "string"
 		}
 		return Sc{tAnd(tNot(tEq(v, intLit64(0))), tEq(app(SInt, "dyn$type", v), intLit64(int64(fx.v.typeID(key))))), nil}
+	case "f_ofint", "f_toint", "f_add", "f_mul", "f_div", "f_sub":
+		// floating-point operations as the code path models them: uninterpreted functions over an abstract sort
+		// (the SAME symbols the translation of Go float expressions uses, so equal operands give equal results)
+		fx.needFlt()
+		name := "f." + strings.TrimPrefix(x.Fun, "f_")
+		switch x.Fun {
+		case "f_ofint":
+			return Sc{app(SFlt, name, fx.sc(fx.evalSpec(x.Args[0], env), SInt)), types.Typ[types.Float64]}
+		case "f_toint":
+			return Sc{app(SInt, name, fx.sc(fx.evalSpec(x.Args[0], env), SFlt)), types.Typ[types.Int]}
+		}
+		return Sc{app(SFlt, name, fx.sc(fx.evalSpec(x.Args[0], env), SFlt), fx.sc(fx.evalSpec(x.Args[1], env), SFlt)), types.Typ[types.Float64]}
+	case "unbox_ref":
+		// unbox_ref("pkg.Type", v): the reference (map, pointer) held by interface value v when its dynamic type is pkg.Type
+		k, ok := x.Args[0].(EStr)
+		if !ok || len(x.Args) != 2 {
+			panic(vcErr("unbox_ref(\"type\", v)"))
+		}
+		v := fx.sc(fx.evalSpec(x.Args[1], env), SInt)
+		fx.declareFun("unbox$"+k.V, []string{SInt}, SInt)
+		return Sc{app(SInt, "unbox$"+k.V, v), nil}
 	case "unbox_int":
 		v := fx.sc(fx.evalSpec(x.Args[0], env), SInt)
 		so := fx.isort()
@@ -923,6 +944,13 @@ func (fx *fnExec) evalCall(x ECall, env *SpecEnv) SV {
 		ne := env.clone()
 		ne.cur = env.loopPre
 		return fx.evalSpec(x.Args[0], ne)
+	case "old_elem":
+		// old_elem(s, i): element i (evaluated NOW) of slice s as it was at function entry
+		ne := env.clone()
+		ne.cur = env.old
+		sv := fx.evalSpec(x.Args[0], ne)
+		iv := fx.evalSpec(x.Args[1], env)
+		return fx.specIndex(sv, iv, ne)
 	case "entry_elem":
 		// entry_elem(s, i): element i (evaluated NOW) of slice s as it was when the enclosing loop was first reached
 		if env.loopPre == nil {
@@ -1145,11 +1173,29 @@ func (fx *fnExec) runHook(h Hook, env *SpecEnv, where string) {
 	fx.hookFired[h.Where+"|"+h.Event+"|"+h.Target] = true
 	guard := tTrue
 	if h.When != nil {
-		// a `when` that names a variable which does not exist yet at this program point cannot be about this point
-		if fx.hookStmtUnallocated(HookStmt{Kind: "assert", E: h.When}, env) {
+		// a `when` that names a variable which does not exist yet at this program point cannot be about this point;
+		// a `when` comparing the event's key/value with a constant of another sort (a map with bool keys seen by a
+		// hook about string keys) is simply false for this event
+		skip := false
+		func() {
+			defer func() {
+				if r := recover(); r != nil {
+					if ve, ok := r.(vcError); ok && strings.Contains(ve.msg, "equality between sorts") {
+						skip = true
+						return
+					}
+					panic(r)
+				}
+			}()
+			if fx.hookStmtUnallocated(HookStmt{Kind: "assert", E: h.When}, env) {
+				skip = true
+				return
+			}
+			guard = fx.evalBool(h.When, env)
+		}()
+		if skip {
 			return
 		}
-		guard = fx.evalBool(h.When, env)
 	}
 	for _, a := range h.Assigns {
 		env.cur = fx.st
@@ -1304,6 +1350,10 @@ func (fx *fnExec) runStoreHooks(x *ssa.Store, ad Ad, where string) {
 				tt = types.NewPointer(ad.rootTyps[0])
 			}
 			ne.names["target"] = Sc{ad.Idx[0], tt}
+			if strings.HasPrefix(ad.Heap, "E.") && len(ad.Idx) > 1 {
+				// slice element: the absolute index written in that array
+				ne.names["targetindex"] = Sc{ad.Idx[1], types.Typ[types.Int]}
+			}
 		}
 		fx.runHook(h, ne, where)
 	}
